@@ -80,7 +80,7 @@ pub fn run_case_in_process(c: &Case) -> Value {
     if c.what == "api" && c.files.len() == 1 && c.files[0].0 == "__api__" {
         return match serde_json::from_str::<ApiCase>(&c.files[0].1) {
             Ok(a) => {
-                if a.ops.iter().any(|o| matches!(o, ApiOp::AddModule { text, .. } | ApiOp::AddFile { text, .. } if asks_for_huge_table(text))) {
+                if a.ops.iter().any(|o| matches!(o, ApiOp::AddModule { text, .. } | ApiOp::AddFile { text, .. } | ApiOp::BuildDir { text, .. } if asks_for_huge_table(text))) {
                     return json!({"status": "skipped-huge-table"});
                 }
                 run_api_in_process(&a)
@@ -898,6 +898,9 @@ pub enum ApiOp {
     /// add_file(base, file): `base_kind` 0 the directory holding the file, 1 a sibling directory, 2 "", 3 "/";
     /// `exists`: whether the file is written before the call
     AddFile { rel: String, text: String, base_kind: u8, exists: bool },
+    /// pyxis::build(<dir>, <out>, w) on directories whose names are the given bytes (glob metacharacters,
+    /// spaces, bytes that are not UTF-8), with `text` in `<dir>/<rel>`
+    BuildDir { dir: Vec<u8>, out: Vec<u8>, rel: String, text: String },
 }
 
 #[derive(Clone, Serialize, Deserialize)]
@@ -929,6 +932,18 @@ pub fn run_api_in_process(c: &ApiCase) -> Value {
                         _ => std::path::PathBuf::from("/"),
                     };
                     st.add_file(&base, &file).map_err(|e| e.to_string())
+                }
+                ApiOp::BuildDir { dir, out, rel, text } => {
+                    use std::os::unix::ffi::OsStrExt;
+                    let ind = sc.path("named").join(std::ffi::OsStr::from_bytes(dir));
+                    let outd = sc.path("named-out").join(std::ffi::OsStr::from_bytes(out));
+                    let file = ind.join(rel);
+                    if let Some(parent) = file.parent() {
+                        let _ = std::fs::create_dir_all(parent);
+                    }
+                    let _ = std::fs::create_dir_all(&outd);
+                    let _ = std::fs::write(&file, text);
+                    pyxis::build(&ind, &outd, c.w as usize).map_err(|e| e.to_string())
                 }
             };
             match r {
@@ -962,7 +977,7 @@ impl Prop for ApiSequences {
         "C12/api-sequences".into()
     }
     fn rule(&self) -> String {
-        "sequences of 1-6 public API calls on one SemanticState followed by build() and write_module(): add_module with generated module texts under ordinary, empty, repeated, nested and prefix-of-each-other module paths; add_file with existing / missing files and a base path that is the input directory, a sibling directory, the empty path or `/` (so that the file is not below the base); both pointer widths. Each sequence runs in a worker process (same limits as C12/directed). Oracle: every call returns Ok or Err, nothing panics. Non-trivial: >=2 calls of which >=1 succeeded".into()
+        "sequences of 1-6 public API calls on one SemanticState followed by build() and write_module(): add_module with generated module texts under ordinary, empty, repeated, nested and prefix-of-each-other module paths; add_file with existing / missing files and a base path that is the input directory, a sibling directory, the empty path or `/` (so that the file is not below the base); pyxis::build on input and output directories named with glob metacharacters, spaces, dots, accented letters and bytes that are not UTF-8; both pointer widths. Each sequence runs in a worker process (same limits as C12/directed). Oracle: every call returns Ok or Err, nothing panics. Non-trivial: >=2 calls of which >=1 succeeded".into()
     }
     fn gen(&self, t: &mut Tape) -> ApiCase {
         let w = if t.chance(1, 2) { 8 } else { 4 };
@@ -982,8 +997,12 @@ impl Prop for ApiSequences {
             }
         };
         let seg_pool = ["m0", "m1", "a", "b", "T1", "u32", "é", ""];
+        let dir_pool: [&[u8]; 14] = [b"plain", b"types[v2]", b"types[v2", b"a*b", b"what?", b"sp ace", "\u{e9}t\u{e9}".as_bytes(), b"types_\xFF", b"\xC3(", b"{a,b}", b"**", b"-dash", b".hidden", b"x.pyxis.d"];
         for _ in 0..n {
-            if t.chance(2, 3) {
+            if t.chance(1, 5) {
+                let rel = t.pick(&["m0.pyxis", "sub/m1.pyxis", "a/b/c.pyxis"]).to_string();
+                ops.push(ApiOp::BuildDir { dir: t.pick(&dir_pool).to_vec(), out: t.pick(&dir_pool).to_vec(), rel, text: texts(t) });
+            } else if t.chance(2, 3) {
                 let depth = t.below(4) as usize;
                 let path: Vec<String> = (0..depth).map(|_| t.pick(&seg_pool).to_string()).collect();
                 ops.push(ApiOp::AddModule { path, text: texts(t) });
@@ -1034,6 +1053,7 @@ impl Prop for ApiSequences {
         json!({"width": c.w, "ops": c.ops.iter().map(|o| match o {
             ApiOp::AddModule { path, text } => json!({"add_module": path.join("::"), "text": text}),
             ApiOp::AddFile { rel, base_kind, exists, text } => json!({"add_file": rel, "base_kind": base_kind, "exists": exists, "text": text}),
+            ApiOp::BuildDir { dir, out, rel, text } => json!({"pyxis::build": String::from_utf8_lossy(dir), "dir_bytes": dir, "out_bytes": out, "file": rel, "text": text}),
         }).collect::<Vec<_>>()})
     }
 }
